@@ -106,7 +106,7 @@ Has(t, kind) ==
 ----------------------------------------------------------------------------
 (* annotation lines *)
 
-Kinds == {"type", "type2", "field", "fieldvis", "fieldpub", "fieldpriv", "param", "paramopt", "return", "return2", "alias", "vararg", "overload",
+Kinds == {"type", "type2", "field", "fieldvis", "fieldpub", "fieldpriv", "param", "paramopt", "paramvar", "return", "return2", "alias", "vararg", "overload",
           "class", "class1", "class2", "generic", "generic2", "enum", "enumstart", "enumend"}
 
 Comment == <<"@", "note">>     \* optional trailing  @comment
@@ -121,6 +121,8 @@ LineToks(kd, t, t2) ==
       [] kd = "fieldpriv" -> <<"field", "private", "fname">> \o Toks(t)
       [] kd = "param"    -> <<"param", "pname">> \o Toks(t)
       [] kd = "paramopt" -> <<"param", "pname", "?">> \o Toks(t)
+      \* the variadic parameter is named '...' (not in docs/manual/annotate.md; written as the parser implements it)
+      [] kd = "paramvar" -> <<"param", "...">> \o Toks(t)
       [] kd = "return"   -> <<"return">> \o Toks(t)
       [] kd = "return2"  -> <<"return">> \o Toks(t) \o <<",">> \o Toks(t2)
       [] kd = "alias"    -> <<"alias", "AliasN">> \o Toks(t)
@@ -145,7 +147,7 @@ Subject(kd) == CASE kd \in {"field", "fieldvis", "fieldpub", "fieldpriv"} -> "fn
 Visibility(kd) == CASE kd = "fieldvis" -> "protected" [] kd = "fieldpriv" -> "private"
                     [] kd \in {"field", "fieldpub"} -> "public" [] OTHER -> ""
 
-Typed == {"type", "field", "fieldvis", "fieldpub", "fieldpriv", "param", "paramopt", "return", "alias", "vararg"}
+Typed == {"type", "field", "fieldvis", "fieldpub", "fieldpriv", "param", "paramopt", "paramvar", "return", "alias", "vararg"}
 Typed2 == {"type2", "return2"}
 Untyped == {"class", "class1", "class2", "generic", "generic2", "enum", "enumstart", "enumend"}
 
@@ -162,7 +164,7 @@ Init == /\ kind \in Kinds
         \* the comment variant only for a sample of the lines
         /\ (cmt => (kind \in Untyped \/ ty \in L1))
         \* the explicit public / private spellings only around the shallow types
-        /\ (kind \in {"fieldpub", "fieldpriv"} => ty \in L1)
+        /\ (kind \in {"fieldpub", "fieldpriv", "paramvar"} => ty \in L1)
 
 Next == UNCHANGED vars
 
